@@ -8,11 +8,18 @@ COQ_PROPS = ['Props/C08.v']
 COQ_IMPORTS = ['Prims', 'CaseLib', 'BitsCore', 'Search', 'Store']
 RULE = ('each content is built by every route (bin/hex text, token string incl. a cache hit, bytes with offset/length, iterable, bitarray, array, BytesIO, slice/copy of a larger object, join, '
         'file name and file handle with offset in {0, unaligned, aligned} and length in {None, whole, shorter, not a multiple of 8}) and a battery of ~45 non-mutating operations and ~20 mutators '
-        '(on a mutable class) is run on each, under msb0 and lsb0; every result must equal the result for Bits(bin=content). non-trivial = route other than bin=; distinct by (content, route, mode)')
+        '(on a mutable class) is run on each, under msb0 and lsb0; every result must equal the result for Bits(bin=content). Routes include duplicates by copy.deepcopy / pickle (of slices, files, containers, '
+        'of originals edited before or afterwards); the duplicates of the object under test are probed, edited in place and kept while the object is edited, judged against a str model of the bits alone. '
+        'bytes= with offset / length (and auto, setter, pack, build, + and append) is given ~190 kinds of carriers of the same raw bytes (array / memoryview.cast / ctypes / numpy items of 1-8 bytes, '
+        'multi-dimensional, strided, reversed, sliced, subclasses, mmap, iterables), judged against the bits of the raw bytes. non-trivial = route other than bin=; distinct by (content, route, mode)')
 ASSUMPTIONS = ['a file is its bytes (mmap itself is not modelled)', 'repr of a file-backed object shows filename= by design and is excluded; str is included']
 FILE_ROUTES = ['file_whole', 'file_len', 'file_off', 'file_off_len', 'file_unaligned', 'handle', 'handle_off_len', 'file_shorter_nonmult',
                'file_exact_len', 'handle_exact_len']
-ALL_ROUTES = ROUTES + FILE_ROUTES + ['hex', 'cachehit', 'array', 'memoryview', 'fromstring', 'bitarray_little', 'bitarray_little_window', 'after_setter_hex', 'after_setter_bin', 'after_setter_bits', 'after_setter_bytes']
+# copies made by the copy / pickle modules (directly, inside containers, of slices, of file-backed objects, of objects that were or are later edited in place):
+# "a slice or copy of a larger object" - the copy is a bitstring of the same bits and nothing else, whatever happens to the object it was taken from
+DEEP_ROUTES = ['deepcopy', 'deepcopy_container', 'pickle', 'pickle_container', 'deepcopy_of_slice', 'pickle_of_slice', 'deepcopy_of_file', 'pickle_of_file',
+               'deepcopy_then_edit_orig', 'pickle_then_edit_orig', 'deepcopy_container_then_edit_orig', 'deepcopy_of_edited', 'pickle_of_edited']
+ALL_ROUTES = ROUTES + FILE_ROUTES + ['hex', 'cachehit', 'array', 'memoryview', 'fromstring', 'bitarray_little', 'bitarray_little_window', 'after_setter_hex', 'after_setter_bin', 'after_setter_bits', 'after_setter_bytes'] + DEEP_ROUTES
 
 def gen_cases(rng, tier):
     N = 40 if tier == 'quick' else 500
@@ -21,8 +28,10 @@ def gen_cases(rng, tier):
         if i % 13 == 0 and tier == 'thorough': n = rng.choice([2001, 3000])
         bits = rand_bits(rng, n)
         for route in ALL_ROUTES:
-            if tier == 'quick' and rng.random() < 0.5 and route not in FILE_ROUTES: continue
-            yield {'op': 'battery', 'bits': bits, 'route': route, 'cls': rng.choice(CLASSES), 'lsb0': rng.random() < 0.3, 'seed': rng.randrange(1 << 30)}
+            if tier == 'quick' and rng.random() < (0.7 if route in DEEP_ROUTES else 0.5) and route not in FILE_ROUTES: continue
+            # deep: the duplicates made by the copy / pickle modules are part of the battery
+            yield {'op': 'battery', 'bits': bits, 'route': route, 'cls': rng.choice(CLASSES), 'lsb0': rng.random() < 0.3, 'seed': rng.randrange(1 << 30),
+                   'deep': rng.random() < (0.5 if tier == 'thorough' or route in DEEP_ROUTES else 0.2)}
 
     # store-level cases: the file window mechanism (buffer + modified_length) against Store.v
     M = 120 if tier == 'quick' else 1500
@@ -36,7 +45,252 @@ def gen_cases(rng, tier):
         yield {'op': 'store', 'src': src, 'offset': off, 'length': ln, 'key': [v(), v(), rng.choice([None, 1, 2, 3, -1, -1, -2, -3, -T, T, 7])],
                'key2': [v(), v()], 'cls': rng.choice(CLASSES), 'handle': rng.random() < 0.3}
 
-def kind(c): return c['route'] if c['op'] == 'battery' else 'store'
+    # bytes= (and the other routes that take bytes-like data) given every kind of object that holds raw bytes: the bits are bits [offset, offset+length) of the raw bytes,
+    # whatever the width, the shape, the strides or the type of the items of the object that carries them
+    kinds = buffer_kinds()
+    reps = 1 if tier == 'quick' else 12
+    for rep in range(reps):
+        for kname, isz, multi in kinds:
+            count = rng.choice([1, 2, 3, 4, 6, 8, 12, 16] if not multi else [2, 4, 6, 8, 12, 16, 24])
+            if isz == 1 and not multi and rng.random() < 0.3: count = rng.choice([0, 1, 5, 7, 9, 17, 33])
+            if tier == 'thorough' and rng.random() < 0.05: count *= 16
+            nb = isz * count
+            raw = [rng.randrange(256) for _ in range(nb)] if rng.random() < 0.8 else [rng.choice([0, 255, 0x80, 1])] * nb
+            if kname == 'mmap' and nb == 0: raw, nb = [0x5a], 1
+            T = nb * 8
+            wins = [[None, None], [rng.choice([1, 3, 8 * isz - 1, 8 * isz, 8 * isz + 3, 12]), rng.choice([1, 5, 8, 20, 8 * isz])], [rng.choice([0, 0, 3, 8, 8 * isz]), None], [None, rng.choice([0, 1, 9, 8 * isz, T])]]
+            for _ in range(4):
+                o = rng.choice([None, 0, 1, 3, 7, 8, 9, 13, 16, 8 * isz - 1, 8 * isz, 8 * isz + 1, 8 * isz + 5, T // 2, T - 9, T - 8, T - 1, T, T + 1, T + 8 * isz, rng.randrange(0, T + 9)])
+                if o is not None and o < 0: o = 0
+                rem = T - (o or 0)
+                l = rng.choice([None, 0, 1, 5, 8, 16, 21, 8 * isz, 8 * isz + 1, rem, rem, rem - 1, rem + 1, rem - 8 * isz, T, rng.randrange(0, T + 9)])
+                if l is not None and l < 0: l = 0
+                wins.append([o, l])
+            yield {'op': 'buffer', 'kind': kname, 'raw': raw, 'wins': wins, 'cls': rng.choice(CLASSES), 'lsb0': rng.random() < 0.3, 'explicit_none': rng.random() < 0.5, 'seed': rng.randrange(1 << 30),
+                   'battery': rng.random() < 0.4}        # the whole battery on the first proper window, against the bin= object of the same bits
+
+ARRAY_CODES = 'bBhHiIlLqQfd'
+CAST_FMTS = 'bBcHhIiLlQqfd?'
+CTYPES_NAMES = ['c_ubyte', 'c_uint16', 'c_int32', 'c_uint64', 'c_float', 'c_double']
+NP_DTYPES = ['u1', '<u2', '>u2', '<i4', '>u4', '<u8', '<f4', '>f8']
+
+def buffer_kinds():
+    """(kind, bytes per item, needs an even number of items) for every carrier of raw bytes the generators use"""
+    import array, struct, ctypes
+    K = [(k, 1, False) for k in ('bytes', 'bytearray', 'bytes_subclass', 'bytearray_subclass', 'mv_bytes', 'mv_bytearray', 'mv_readonly', 'getbuffer', 'mmap', 'list', 'tuple', 'generator', 'iterator')]
+    for code in ARRAY_CODES:
+        z = array.array(code).itemsize
+        K += [(f'array:{code}', z, False), (f'mv_array:{code}', z, False), (f'mv_array_slice:{code}', z, False), (f'array_subclass:{code}', z, False)]
+    for f in CAST_FMTS:
+        z = struct.calcsize(f)
+        K += [(f'cast:{f}', z, False), (f'cast2d:{f}', z, True), (f'cast3d:{f}', z, True), (f'cast2d_rows:{f}', z, True), (f'strided:{f}', z, False), (f'reversed:{f}', z, False)]
+    for nm in CTYPES_NAMES:
+        z = ctypes.sizeof(getattr(ctypes, nm))
+        K += [(f'ctypes:{nm}', z, False), (f'mv_ctypes:{nm}', z, False)]
+    try:
+        import numpy
+        for dt in NP_DTYPES:
+            z = numpy.dtype(dt).itemsize
+            K += [(f'np:{dt}', z, False), (f'np_copy:{dt}', z, False), (f'np2d:{dt}', z, True), (f'np_strided:{dt}', z, False)]
+    except Exception:
+        pass
+    return K
+
+class _BytesSub(bytes): pass
+class _BytearraySub(bytearray): pass
+
+def _shape2(count):
+    r = 2 if count % 2 == 0 else (3 if count % 3 == 0 else 1)
+    return [r, count // r]
+
+def make_buffer(kind, raw, keep):
+    """an object carrying the raw bytes `raw`: its buffer (memoryview(obj).tobytes()), or for the plain iterables its items, are exactly `raw`"""
+    import array, ctypes, io, mmap, struct
+    k, _, a = kind.partition(':')
+    n = len(raw)
+    if k == 'bytes': return bytes(raw)
+    if k == 'bytearray': return bytearray(raw)
+    if k == 'bytes_subclass': return _BytesSub(raw)
+    if k == 'bytearray_subclass': return _BytearraySub(raw)
+    if k == 'mv_bytes': return memoryview(bytes(raw))
+    if k == 'mv_bytearray': return memoryview(bytearray(raw))
+    if k == 'mv_readonly': return memoryview(bytearray(raw)).toreadonly()
+    if k == 'getbuffer':
+        bio = io.BytesIO(raw); keep.append(bio); return bio.getbuffer()
+    if k == 'mmap':
+        m = mmap.mmap(-1, n); m.write(raw); m.seek(0); keep.append(m); return m
+    if k == 'list': return list(raw)
+    if k == 'tuple': return tuple(raw)
+    if k == 'generator': return (x for x in raw)
+    if k == 'iterator': return iter(list(raw))
+    if k in ('array', 'mv_array', 'array_subclass'):
+        arr = (array.array if k != 'array_subclass' else type('ArraySub', (array.array,), {}))(a); arr.frombytes(raw)
+        return memoryview(arr) if k == 'mv_array' else arr
+    if k == 'mv_array_slice':
+        arr = array.array(a); z = arr.itemsize; arr.frombytes(b'\xa5' * z + raw + b'\x5a' * z)
+        return memoryview(arr)[1:-1]
+    if k in ('cast', 'cast2d', 'cast3d', 'cast2d_rows', 'strided', 'reversed'):
+        z = struct.calcsize(a); count = n // z
+        items = [raw[i:i + z] for i in range(0, n, z)]
+        if k == 'cast': return memoryview(raw).cast(a)
+        if k == 'cast2d': return memoryview(raw).cast(a, shape=_shape2(count))
+        if k == 'cast3d': return memoryview(raw).cast(a, shape=[2, 2, count // 4] if count % 4 == 0 else [1] + _shape2(count))
+        if k == 'cast2d_rows':
+            r, cc = _shape2(count)
+            return memoryview(b'\x77' * (cc * z) + raw).cast(a, shape=[r + 1, cc])[1:]
+        if k == 'strided': return memoryview(b''.join(it + b'\xee' * z for it in items)).cast(a)[::2]
+        return memoryview(b''.join(reversed(items))).cast(a)[::-1]
+    if k in ('ctypes', 'mv_ctypes'):
+        ty = getattr(ctypes, a); obj = (ty * (n // ctypes.sizeof(ty))).from_buffer_copy(raw)
+        return memoryview(obj) if k == 'mv_ctypes' else obj
+    if k in ('np', 'np_copy', 'np2d', 'np_strided'):
+        import numpy
+        z = numpy.dtype(a).itemsize
+        if k == 'np': return numpy.frombuffer(raw, dtype=a)
+        if k == 'np_copy': return numpy.frombuffer(raw, dtype=a).copy()
+        if k == 'np2d': return numpy.frombuffer(raw, dtype=a).reshape(_shape2(n // z))
+        return numpy.frombuffer(b''.join(raw[i:i + z] + b'\xee' * z for i in range(0, n, z)), dtype=a)[::2]
+    raise AssertionError(kind)
+
+def raw_of(obj):
+    """the raw bytes an object carries, by Python's own rules (buffer protocol in logical order; items for the plain iterables)"""
+    try: return memoryview(obj).tobytes()
+    except TypeError: return bytes(obj)
+
+def window_bits(raw, o, l):
+    allbits = ''.join(format(x, '08b') for x in raw)
+    o = o or 0
+    return allbits[o:] if l is None else allbits[o:o + l]
+
+def window_valid(raw, o, l):
+    return (o or 0) + (l or 0) <= len(raw) * 8
+
+def run_buffer(c):
+    import bitstring, array
+    C = cls_of(c['cls'])
+    raw = bytes(c['raw'])
+    keep = []
+    bitstring.options.lsb0 = bool(c['lsb0'])
+    def show(s, w):
+        return {'cls': type(s).__name__, 'bin': s.bin, 'len': len(s), 'tobytes': list(s.tobytes()), 'count1': s.count(1), 'uint': list(attempt(lambda: format(s.uint, 'x'))),
+                'eq': [s == bitstring.Bits(bin=w), bitstring.Bits(bin=w) == s, s == C(bin=w)], 'hex': list(attempt(lambda: s.hex)), 'first': list(attempt(lambda: bool(s[0]))),
+                'rev': s[::-1].bin}
+    def one(o, l, mutate_source=False):
+        src = make_buffer(c['kind'], raw, keep)
+        if not isinstance(src, (list, tuple)) and hasattr(src, '__len__') or isinstance(src, memoryview):
+            assert raw_of(src) == raw, 'harness: the carrier does not hold the raw bytes'
+        kw = {}
+        if o is not None or c['explicit_none']: kw['offset'] = o
+        if l is not None or c['explicit_none']: kw['length'] = l
+        s = C(bytes=src, **kw)
+        r = show(s, window_bits(raw, o, l))
+        if hasattr(src, '__len__') or isinstance(src, memoryview):
+            r['src_intact'] = raw_of(src) == raw                 # the initialiser only reads what it is given
+            # the owner of the buffer changes it afterwards: an in-memory bitstring is not affected
+            try:
+                mv = memoryview(src)
+                if not mv.readonly and mv.contiguous and mv.nbytes:
+                    mvb = mv.cast('B') if mv.ndim == 1 else None
+                    if mvb is not None:
+                        for i in range(len(mvb)): mvb[i] ^= 0xff
+                        r['bin_after_source_changed'] = s.bin
+            except (TypeError, ValueError, BufferError):
+                pass
+        return r, s
+    def f():
+        wins = []
+        first_ok = None
+        for o, l in c['wins']:
+            rr = attempt(lambda: one(o, l)[0])
+            wins.append([o, l, rr[0], rr[1]])
+            if rr[0] == 'ok' and first_ok is None and window_valid(raw, o, l) and (o, l) != (None, None): first_ok = (o, l)
+        # the routes without a window: positional initialiser, property setter, operand of + and of append
+        vias = []
+        probe = make_buffer(c['kind'], raw, keep)
+        positional = isinstance(probe, (bytes, bytearray, memoryview, array.array))
+        M = C if issubclass(C, bitstring.BitArray) else (bitstring.BitStream if hasattr(C, 'pos') else bitstring.BitArray)
+        allb = window_bits(raw, None, None)
+        def via_setter():
+            m = M(); m.bytes = make_buffer(c['kind'], raw, keep); return m if M is C else C(m)
+        def via_setter_twice():
+            m = M(bin='101'); m.bytes = make_buffer(c['kind'], raw, keep); m.bytes = make_buffer(c['kind'], raw, keep); return m if M is C else C(m)
+        routes = [('setter', via_setter), ('setter_twice', via_setter_twice)]
+        mk = lambda: make_buffer(c['kind'], raw, keep)
+        routes += [("pack('bytes', x)", lambda: C(bitstring.pack('bytes', mk()))), ("Dtype('bytes').build(x)", lambda: C(bitstring.Dtype('bytes').build(mk())))]
+        if raw:
+            nb = len(raw)
+            routes += [(f"pack('bytes:{nb}', x)", lambda: C(bitstring.pack(f'bytes:{nb}', mk()))), (f"pack('bytes:{nb}=v', v=x)", lambda: C(bitstring.pack(f'bytes:{nb}=v', v=mk()))),
+                       (f"Dtype('bytes', {nb}).build(x)", lambda: C(bitstring.Dtype('bytes', nb).build(mk()))), (f"pack('bytes:{nb}, bin', x, '1')", lambda: C(bitstring.pack(f'bytes:{nb}, bin', mk(), '1')[:-1] if not c['lsb0'] else bitstring.pack(f'bytes:{nb}', mk())))]
+        if positional:
+            routes += [('auto', lambda: C(make_buffer(c['kind'], raw, keep))),
+                       ('add', lambda: C() + make_buffer(c['kind'], raw, keep)), ('radd', lambda: make_buffer(c['kind'], raw, keep) + C()),
+                       ('append', lambda: (lambda m: (m.append(make_buffer(c['kind'], raw, keep)), m if M is C else C(m))[1])(M())),
+                       ('eq', lambda: [C(bin=allb) == make_buffer(c['kind'], raw, keep), C(bin=allb + '1') == make_buffer(c['kind'], raw, keep)])]
+        for name, fn in routes:
+            def g():
+                s = fn()
+                return s if isinstance(s, list) else show(s, allb)
+            rr = attempt(g)
+            vias.append([name, rr[0], rr[1]])
+        bat = None
+        if first_ok is not None and c.get('battery', True):
+            o, l = first_ok
+            w = window_bits(raw, o, l)
+            s = one(o, l)[1]
+            ad = []
+            got = battery(s, w, c['seed'], ad, False)
+            exp = battery(C(bin=w), w, c['seed'])
+            diffs = [[g_, e_] for g_, e_ in zip(got, exp) if g_ != e_]
+            bat = {'window': [o, l], 'n_ops': len(got), 'n_diffs': len(diffs), 'diffs': diffs[:3], 'n_abs': len(ad), 'abs_diffs': [first_difference(d) for d in ad[:3]]}
+        return {'wins': wins, 'vias': vias, 'battery': bat}
+    try:
+        return attempt(f, 30)
+    finally:
+        for k in keep:
+            try: k.close()
+            except Exception: pass
+
+def oracle_buffer(c, obs):
+    raw = c['raw']; T = len(raw) * 8
+    what = lambda o, l: f"{c['cls']}(bytes=<{c['kind']} carrying {len(raw)} raw bytes {bytes(raw[:24]).hex()}{'..' if len(raw) > 24 else ''}>, offset={o}, length={l}) lsb0={c['lsb0']}"
+    if obs[0] != 'ok': return f"{what('..', '..')}: the run raised {obs}"
+    def judge(r, w, label):
+        exp = {'cls': c['cls'], 'bin': w, 'len': len(w), 'tobytes': list(int(w + '0' * (-len(w) % 8), 2).to_bytes((len(w) + 7) // 8, 'big')) if w else [], 'count1': w.count('1'),
+               'uint': ['ok', format(int(w, 2), 'x')] if w else ['err'], 'eq': [True, True, True], 'first': ['ok', (w[-1] if c['lsb0'] else w[0]) == '1'] if w else ['err', 'IndexError'],
+               'rev': w[::-1], 'src_intact': True, 'bin_after_source_changed': w}
+        if len(w) % 4 == 0 and w: exp['hex'] = ['ok', format(int(w, 2), f'0{len(w) // 4}x')]
+        for key, e in exp.items():
+            if key in r and (r[key][:len(e)] if key == 'uint' else r[key]) != e:
+                return f"{label}: {key} is {str(r[key])[:150]}, the raw bytes give {str(e)[:150]}"
+        return None
+    for o, l, status, r in obs[1]['wins']:
+        if not window_valid(raw, o, l):
+            if status != 'err': return f"{what(o, l)} accepted a window that ends beyond the {T} bits handed over: bin={str(r.get('bin'))[:80]!r}"
+            continue
+        if status != 'ok': return f"{what(o, l)} raised {r} although bits [{o or 0}, {(o or 0) + l if l is not None else T}) lie within the {T} bits handed over"
+        msg = judge(r, window_bits(raw, o, l), what(o, l))
+        if msg: return msg
+    allb = window_bits(raw, None, None)
+    for name, status, r in obs[1]['vias']:
+        label = f"{c['cls']} from <{c['kind']} carrying {len(raw)} raw bytes {bytes(raw[:24]).hex()}> via {name}, lsb0={c['lsb0']}"
+        if status != 'ok': return f"{label} raised {r}"
+        if name == 'eq':
+            if r != [True, False]: return f"{label}: == gives {r} for the bitstring of its bits / of its bits and one more"
+            continue
+        msg = judge(r, allb, label)
+        if msg: return msg
+    b = obs[1]['battery']
+    if b:
+        if b['n_abs']:
+            name, g, e = b['abs_diffs'][0]
+            return f"{what(*b['window'])}: {name} is {str(g)[:200]} but its bit content alone determines {str(e)[:200]}"
+        if b['n_diffs']:
+            return f"{what(*b['window'])} differs from the bin= object of the same bits in {b['n_diffs']} operations, e.g. {str(b['diffs'][0])[:300]}"
+    return None
+
+def kind(c): return c['route'] if c['op'] == 'battery' else c['op']
+
+_KEEP = []      # objects that must outlive the construction of a route (originals of copies)
 
 def build_route(C, bits, route, tmpfiles):
     """object of class C holding `bits` built through `route`; files are created in tmpfiles"""
@@ -76,6 +330,36 @@ def build_route(C, bits, route, tmpfiles):
     if route == 'bitarray_little_window':
         import bitarray
         return C(bitarray=bitarray.bitarray('101' + bits + '0110', endian='little'), offset=3, length=n)
+    if route in DEEP_ROUTES:
+        import copy as _copy, pickle as _pickle
+        M = C if issubclass(C, bitstring.BitArray) else (bitstring.BitStream if hasattr(C, 'pos') else bitstring.BitArray)   # the mutable counterpart
+        proto = 2 + n % 4                                     # protocols 0 and 1 refuse classes with __slots__ (a refusal is not a route)
+        if route.startswith('deepcopy_container'):
+            dup = lambda x: _copy.deepcopy({'a': [x, 7], 'b': (x,)})['a' if n % 2 else 'b'][0]
+        elif route.startswith('deepcopy'): dup = _copy.deepcopy
+        elif route.startswith('pickle_container'):
+            def dup(x):
+                r = _pickle.loads(_pickle.dumps([{'k': x}, x], proto))
+                return r[1] if n % 2 else r[0]['k']
+        else: dup = lambda x: _pickle.loads(_pickle.dumps(x, proto))
+        if route.endswith('_of_slice'):
+            return dup(C(bin='101' + bits + '0110')[3:3 + n])
+        if route.endswith('_of_file'):
+            if n == 0: return dup(C(bin=bits))
+            return dup(C(filename=mkfile('', ''), length=n) if n % 8 else C(filename=mkfile('', '')))
+        if route.endswith('_then_edit_orig'):
+            # the object the copy was taken from is edited in place afterwards (and stays alive): the copy keeps the bits it was made with
+            x = M(bin=bits); y = dup(x)
+            x.append('0b1'); x.invert(); x.reverse(); x.set(1, 0); x.overwrite('0b0', len(x) - 1)
+            _KEEP.append(x)
+            return y if M is C else C(y)
+        if route.endswith('_of_edited'):
+            # the original reached its content through in-place edits
+            x = M(bin=''.join('1' if ch == '0' else '0' for ch in bits) + '1'); del x[-1]
+            if n: x.invert()
+            y = dup(x)
+            return y if M is C else C(y)
+        return dup(C(bin=bits))
     if n == 0: return C(bin=bits)
     if route == 'file_exact_len': return C(filename=mkfile('', ''), length=n)          # length given and equal to the whole file when n % 8 == 0
     if route == 'handle_exact_len':
@@ -100,8 +384,80 @@ def build_route(C, bits, route, tmpfiles):
             return C(fh, offset=5, length=n)
     raise AssertionError(route)
 
-def battery(s, bits, rng_seed):
-    """a list of (name, result) for non-mutating operations, then mutators on a mutable copy of the same route"""
+class _Holder:
+    def __init__(self, payload): self.payload = payload
+
+class _SlotHolder:
+    __slots__ = ('payload', 'other')
+    def __init__(self, payload): self.payload = payload; self.other = [payload]
+
+def deep_copies(s):
+    """(label, copy of s) for every way the copy / pickle modules can duplicate s: directly, with an explicit memo, inside built-in containers, inside user objects with and
+    without __slots__, twice in one container (memo path), a copy of a copy, every pickle protocol that accepts the class"""
+    import copy as _copy, pickle as _pickle, types
+    out = []
+    def add(label, fn):
+        try: out.append((label, fn()))
+        except Exception as e: out.append((label, e))
+    add('copy.deepcopy(s)', lambda: _copy.deepcopy(s))
+    add('copy.deepcopy(s, {})', lambda: _copy.deepcopy(s, {}))
+    add('copy.deepcopy([s])[0]', lambda: _copy.deepcopy([s])[0])
+    add('copy.deepcopy((s, 1))[0]', lambda: _copy.deepcopy((s, 1))[0])
+    add("copy.deepcopy({'k': s})['k']", lambda: _copy.deepcopy({'k': s})['k'])
+    add('copy.deepcopy([s, s])[1]', lambda: _copy.deepcopy([s, s])[1])
+    add("copy.deepcopy([[s], {'a': (s,)}])[1]['a'][0]", lambda: _copy.deepcopy([[s], {'a': (s,)}])[1]['a'][0])
+    add('copy.deepcopy(SimpleNamespace(p=s)).p', lambda: _copy.deepcopy(types.SimpleNamespace(p=s)).p)
+    add('copy.deepcopy(Holder(s)).payload', lambda: _copy.deepcopy(_Holder(s)).payload)
+    add('copy.deepcopy(SlotHolder(s)).other[0]', lambda: _copy.deepcopy(_SlotHolder(s)).other[0])
+    add('copy.copy(Holder(s)) then deepcopy .payload', lambda: _copy.deepcopy(_copy.copy(_Holder(s))).payload)
+    add('copy.deepcopy(copy.deepcopy(s))', lambda: _copy.deepcopy(_copy.deepcopy(s)))
+    for proto in range(2, _pickle.HIGHEST_PROTOCOL + 1):          # protocols 0 and 1 refuse every class with __slots__ and no __getstate__ (Python, not bitstring)
+        add(f'pickle.loads(pickle.dumps(s, {proto}))', lambda proto=proto: _pickle.loads(_pickle.dumps(s, proto)))
+    add('pickle.loads(pickle.dumps(s))', lambda: _pickle.loads(_pickle.dumps(s)))
+    add("pickle.loads(pickle.dumps([s, {'k': s}]))[1]['k']", lambda: _pickle.loads(_pickle.dumps([s, {'k': s}]))[1]['k'])
+    add('pickle.loads(pickle.dumps(Holder(s))).payload', lambda: _pickle.loads(_pickle.dumps(_Holder(s))).payload)
+    add('copy.deepcopy(pickle.loads(pickle.dumps(s)))', lambda: _copy.deepcopy(_pickle.loads(_pickle.dumps(s))))
+    return out
+
+_DEEP_LABELS = []
+def deep_labels():
+    if not _DEEP_LABELS:
+        import bitstring
+        _DEEP_LABELS.extend(lab for lab, _ in deep_copies(bitstring.Bits()))
+    return list(_DEEP_LABELS)
+
+def _flip(d): return ''.join('1' if ch == '0' else '0' for ch in d)
+
+def copy_edits(n, lsb0):
+    """in-place edits of a copy with their str model: (name, apply, model). Under lsb0 only the edits whose effect on the bit content does not depend on the numbering"""
+    from bitstring import Bits
+    alt = ('10' * n)[:n]
+    E = []
+    if n:
+        E += [('invert()', lambda k: k.invert(), _flip), ('reverse()', lambda k: k.reverse(), lambda d: d[::-1]),
+              ('^= ones', lambda k: k.__ixor__(Bits(bin='1' * n)), _flip),
+              ('|= 1010..', lambda k: k.__ior__(Bits(bin=alt)), lambda d: ''.join('1' if a == '1' or b == '1' else '0' for a, b in zip(d, alt))),
+              ('&= 1010..', lambda k: k.__iand__(Bits(bin=alt)), lambda d: ''.join('1' if a == '1' and b == '1' else '0' for a, b in zip(d, alt)))]
+        if n % 8 == 0:
+            E.append(('byteswap()', lambda k: k.byteswap(), lambda d: ''.join(d[i:i + 8] for i in range(n - 8, -1, -8))))
+    if not lsb0:
+        E += [("append('0b101')", lambda k: k.append('0b101'), lambda d: d + '101'), ("+= '0b01'", lambda k: k.__iadd__('0b01'), lambda d: d + '01'),
+              ("insert('0b11', 0)", lambda k: k.insert('0b11', 0), lambda d: '11' + d)]
+        if n:
+            E += [('set(1, [0, -1])', lambda k: k.set(1, [0, -1]), lambda d: '1' + d[1:-1] + '1' if n > 1 else '1'),
+                  ('[0] = 1', lambda k: k.__setitem__(0, 1), lambda d: '1' + d[1:]),
+                  ('del [0:2]', lambda k: k.__delitem__(slice(0, 2)), lambda d: d[2:]),
+                  ("[0:1] = '0b111'", lambda k: k.__setitem__(slice(0, 1), '0b111'), lambda d: '111' + d[1:]),
+                  ('invert(0)', lambda k: k.invert(0), lambda d: _flip(d[0]) + d[1:]),
+                  ('rol(1)', lambda k: k.rol(1), lambda d: d[1:] + d[:1]), ('<<= 1', lambda k: k.__ilshift__(1), lambda d: d[1:] + '0')]
+        if n >= 2:
+            E += [("overwrite('0b01', 0)", lambda k: k.overwrite('0b01', 0), lambda d: '01' + d[2:])]
+    return E
+
+def battery(s, bits, rng_seed, absd=None, deep=True):
+    """a list of (name, result) for non-mutating operations, then mutators on a mutable copy of the same route.
+    absd (when given) collects the results that differ from what the bit content alone determines (str model), independent of any second object; these checks
+    are not part of the returned list. deep: include the duplicates made by the copy / pickle modules in them"""
     import bitstring, random
     from bitstring import Bits
     rng = random.Random(rng_seed)
@@ -119,6 +475,38 @@ def battery(s, bits, rng_seed):
         elif isinstance(v, bytes): v = list(v)
         elif isinstance(v, float): v = v.hex() if v == v else 'nan'
         out.append([name, r[0], v])
+    def ta(name, fn, expected):
+        if absd is None: return
+        t(name, fn)
+        e = out.pop()
+        if e[1:] != ['ok', expected]:
+            absd.append([e, ['from the bits alone', expected]])
+    deep = deep and absd is not None
+    lsb0_now = bool(bitstring.options.lsb0)
+    cname = type(s).__name__
+    ref_bytes = list(int(bits + '0' * (-n % 8), 2).to_bytes((n + 7) // 8, 'big')) if n else []
+    def probe(k):
+        """what a kept / copied object shows; every entry follows from its bits"""
+        if isinstance(k, Exception): return ['raised', type(k).__name__]
+        return [type(k).__name__, k.bin, len(k), k == Bits(bin=bits), Bits(bin=bits) == k, list(k.tobytes()), k.count(1), k is s and isinstance(s, bitstring.BitArray)]
+    probe_ref = [cname, bits, n, True, True, ref_bytes, bits.count('1'), False]
+    # every duplicate the copy / pickle modules make of s is a bitstring of the same class and bits, and a different object when s is mutable
+    ta('bin', lambda: s.bin, bits); ta('len', lambda: len(s), n); ta('class', lambda: type(s).__name__, cname)
+    dups = deep_copies(s) if deep else []          # taken now, probed now, kept while s is edited in place, probed again and edited at the end
+    if deep: ta('deep_copies', lambda: [[lab] + probe(k) for lab, k in dups], [[lab] + probe_ref for lab in deep_labels()])
+    if deep and isinstance(s, bitstring.BitArray):
+        # each duplicate is edited in place: it gets the bits the str model gives, and s keeps its own
+        edits = copy_edits(n, lsb0_now)
+        def edit_deep():
+            res = []
+            for j, (lab, k) in enumerate(deep_copies(s)):
+                if isinstance(k, Exception): res.append([lab, 'raised', type(k).__name__]); continue
+                name, fn, model = edits[(j + rng_seed) % len(edits)]
+                r = attempt(lambda: fn(k))
+                res.append([lab, name + ' on the copy', r[0] if r[0] == 'ok' else list(r), {'copy': k.bin, 'original': s.bin}])
+            return res
+        if edits:
+            ta('edit_deep_copies', edit_deep, [[lab, edits[(j + rng_seed) % len(edits)][0] + ' on the copy', 'ok', {'copy': edits[(j + rng_seed) % len(edits)][2](bits), 'original': bits}] for j, lab in enumerate(deep_labels())])
     t('len', lambda: len(s)); t('bin', lambda: s.bin); t('bool', lambda: bool(s)); t('str', lambda: str(s))
     t('eq_ref', lambda: s == Bits(bin=bits)); t('req_ref', lambda: Bits(bin=bits) == s); t('ne_other', lambda: s != other)
     t('hash', lambda: hash(s) == hash(Bits(bin=bits)) if not isinstance(s, bitstring.BitArray) else None)
@@ -143,17 +531,33 @@ def battery(s, bits, rng_seed):
         def edit_copy():
             c2 = s.copy(); c2.invert(); c2.append('0b1'); c3 = _copy.copy(s); c3.set(1); return [s.bin, len(c2), len(c3)]
         t('edit_a_copy', edit_copy)
+        if n: ta('edit_a_copy', edit_copy, [bits, n + 1, n])           # (invert() refuses an empty bitstring)
         kept = [s.copy(), _copy.copy(s), Bits(s), bitstring.ConstBitStream(s), s[:], bitstring.BitArray(s)]
+        n_plain = len(kept)
+        kept += [k for _, k in dups]        # duplicates by the copy / pickle modules taken before s is edited in place
+        kept_probe_ref = ([[bits, n]] * n_plain) + [probe_ref[:-1]] * (len(kept) - n_plain)
         def m(name, fn):
             def g():
                 r = fn(); return [r, s.bin]
             t('mut_' + name, g)
         m('append', lambda: s.append('0b11')); m('prepend', lambda: s.prepend('0b0')); m('insert', lambda: s.insert('0b101', min(2, len(s))))
         m('overwrite', lambda: s.overwrite('0b00', 0)); m('setitem', lambda: s.__setitem__(0, 1)); m('setslice', lambda: s.__setitem__(slice(1, 3), '0b111'))
-        m('del', lambda: s.__delitem__(slice(0, 2))); m('reverse', lambda: s.reverse()); m('rol', lambda: s.rol(3)); m('ror', lambda: s.ror(1, 1))
+        m('del', lambda: s.__delitem__(slice(0, 2)))
+        mid = s.bin; dups_mid = deep_copies(s) if deep else []       # duplicates of an object that has been edited in place, s being edited further afterwards
+        m('reverse', lambda: s.reverse()); m('rol', lambda: s.rol(3)); m('ror', lambda: s.ror(1, 1))
         m('set', lambda: s.set(1, [0, -1])); m('invert', lambda: s.invert(0)); m('ilshift', lambda: s.__ilshift__(1)); m('imul', lambda: s.__imul__(2))
         m('iand', lambda: s.__iand__(Bits(len(s)))); m('replace', lambda: s.replace('0b1', '0b00', count=2)); m('byteswap', lambda: s.byteswap(1)); m('clear', lambda: s.clear())
-        t('kept_copies', lambda: [k.bin for k in kept])
+        # whatever was done to s since, every object taken from it beforehand still is the bitstring of the bits it was taken with
+        t('kept_copies', lambda: [k.bin for k in kept[:n_plain]])
+        ta('kept_copies', lambda: [[k.bin, len(k)] for k in kept[:n_plain]] + [probe(k)[:-1] for k in kept[n_plain:]], kept_probe_ref)
+        if deep: ta('kept_copies_taken_midway', lambda: [[lab, type(k).__name__, k.bin] for lab, k in dups_mid], [[lab, cname, mid] for lab in deep_labels()])
+        # ... and editing the kept mutable ones now does not reach s (whose content after clear() is empty) nor each other
+        def edit_kept():
+            res = []
+            for k in kept:
+                if isinstance(k, bitstring.BitArray) and len(k): k.invert()
+            return [s.bin] + [k.bin for k in kept]
+        ta('edit_kept_copies', edit_kept, [''] + [_flip(bits) if (i in (0, 1, 4, 5) or i >= n_plain) else bits for i in range(len(kept))])     # kept[2], kept[3] are the immutable ones
 
     return out
 
@@ -184,9 +588,20 @@ def run_store(c):
         try: os.unlink(path)
         except OSError: pass
 
+def first_difference(d):
+    """[got entry, ['from the bits alone', expected]] cut down to the first sub-entry that differs (the entries of the copy checks are long lists)"""
+    (name, status, got), (_, exp) = d
+    if status == 'ok' and isinstance(got, list) and isinstance(exp, list):
+        for i, (g, e) in enumerate(zip(got, exp)):
+            if g != e: return [f'{name}[{i}]', g, e]
+        return [name, f'{len(got)} items', f'{len(exp)} items']
+    return [name, got if status == 'ok' else [status, got], exp]
+
 def run_impl(c):
     import bitstring
+    del _KEEP[:]
     if c['op'] == 'store': return run_store(c)
+    if c['op'] == 'buffer': return run_buffer(c)
     C = cls_of(c['cls'])
     tmp = []
     try:
@@ -198,10 +613,11 @@ def run_impl(c):
             bitstring.options.lsb0 = False
             ref = C(bin=c['bits'])
             bitstring.options.lsb0 = c['lsb0']
-            got = battery(s, c['bits'], c['seed'])
-            exp = battery(ref, c['bits'], c['seed'])
+            ad = []
+            got = battery(s, c['bits'], c['seed'], ad, c.get('deep', True))
+            exp = battery(ref, c['bits'], c['seed'])       # (the bin= object is itself judged against the str model when it is the route: 'bin' is one of the routes)
             diffs = [[g, e] for g, e in zip(got, exp) if g != e]
-            return {'n_ops': len(got), 'diffs': diffs[:5], 'n_diffs': len(diffs), 'built_bin': None}
+            return {'n_ops': len(got), 'diffs': diffs[:5], 'n_diffs': len(diffs), 'built_bin': None, 'abs_diffs': [first_difference(d) for d in ad[:3]], 'n_abs': len(ad)}
         return attempt(f, 30)
     finally:
         for p in tmp:
@@ -232,13 +648,18 @@ def oracle_store(c, obs):
 
 def oracle(c, obs):
     if c['op'] == 'store': return oracle_store(c, obs)
+    if c['op'] == 'buffer': return oracle_buffer(c, obs)
     if obs[0] != 'ok': return f"building {c['cls']} via {c['route']} ({len(c['bits'])} bits, lsb0={c['lsb0']}) raised {obs}"
+    if obs[1].get('abs_diffs'):
+        name, g, e = obs[1]['abs_diffs'][0]
+        return (f"{c['cls']} built via {c['route']} (lsb0={c['lsb0']}, bits={c['bits'][:40]!r}..{len(c['bits'])}): {name} is {str(g)[:260]} but its bit content alone determines {str(e)[:260]} "
+                f"({obs[1]['n_abs']} such results)")
     if obs[1]['n_diffs']:
         return (f"{c['cls']} built via {c['route']} (lsb0={c['lsb0']}, bits={c['bits'][:40]!r}..{len(c['bits'])}) differs from the bin= object in {obs[1]['n_diffs']} operations, e.g. "
                 f"{str(obs[1]['diffs'][0])[:300]}")
     return None
 
-def nontrivial(c, obs): return c['op'] == 'store' or c['route'] != 'bin'
+def nontrivial(c, obs): return c['op'] in ('store', 'buffer') or c['route'] != 'bin'
 def classify(c, obs): return None
 
 def coq_check(c, obs):
